@@ -279,7 +279,7 @@ def run(ctx):
         scs = split_scenarios(json.load(open(ctx.replay)).get("ops", []))
     else:
         corpus = [l.strip() for l in open(os.path.join(here, "corpus.ops")) if l.strip() and not l.startswith("#")]
-        scs = split_scenarios(corpus) + [gen_scenario(ctx.rng) for _ in range(ctx.scale(2500, 80000))]
+        scs = split_scenarios(corpus) + [gen_scenario(ctx.rng) for _ in range(ctx.scale(2500, 25000))]
         scs += [[f"race {d}"] for d in (5, 10, 50)]
     ops = [op for s in scs for op in s]
     ctx.log("harness built")
